@@ -12,5 +12,31 @@ while [ $# -gt 0 ]; do
     *) args+=("$1"); shift;;
   esac
 done
+# Thorough tier: separate free-running pass under the Go race detector (same
+# harness bodies on real goroutines; supplementary to the exhaustive monitor).
+rm -f "$ROOT/.bin/c20.racepass.json"
+case " ${args[*]} " in
+  *" -tier thorough "*)
+    export GOFLAGS=-mod=mod GOPROXY=off GOSUMDB=off GOTOOLCHAIN=local
+    export GOCACHE="${GOCACHE:-$ROOT/.cache/go-build}"
+    OV="$ROOT/.bin/ov-c20"; MODFLAG=""; RBIN="$ROOT/.bin/c20-race"
+    if [ -n "${VERIF_REPO:-}" ]; then OV="$ROOT/.bin/alt/ov-c20"; MODFLAG="-modfile=$ROOT/.bin/alt/c20.mod"; RBIN="$ROOT/.bin/alt/c20-race"; fi
+    if (cd "$ROOT/engine" && go build -race $MODFLAG -overlay "$OV/overlay.json" -tags "verif vsched" -ldflags=-checklinkname=0 -o "$RBIN" ./cmd/c20 2>"$ROOT/.bin/c20-race.build.log"); then
+      out="$ROOT/.bin/c20.racepass.out"; : > "$out"
+      rc=0
+      for p in 2 4 16; do
+        C20_FREERACE=10 GOMAXPROCS=$p timeout 1200 "$RBIN" >>"$out" 2>&1 || rc=$?
+      done
+      if grep -q "DATA RACE\|FREE-RUN-DIFFERS" "$out" || { [ $rc -ne 0 ] && [ $rc -ne 124 ]; }; then
+        mkdir -p "$ROOT/replays/C20"; cp "$out" "$ROOT/replays/C20/racepass.txt"
+        echo "free-running race pass reported a problem (exit $rc); see replays/C20/racepass.txt"
+        echo "VIOLATION property=C20 replay=$ROOT/replays/C20/racepass.txt"
+        exit 1
+      fi
+      grep '^{' "$out" | python3 -c 'import sys,json; rows=[json.loads(l) for l in sys.stdin]; json.dump({"race_detector_reports":0,"passes":rows}, open(sys.argv[1],"w"))' "$ROOT/.bin/c20.racepass.json"
+    else
+      echo "note: -race build failed; race pass skipped (see .bin/c20-race.build.log)" >&2
+    fi;;
+esac
 BIN="$ROOT/.bin/c20"; [ -n "${VERIF_REPO:-}" ] && BIN="$ROOT/.bin/alt/c20"
 exec "$BIN" "${args[@]}"
